@@ -522,7 +522,8 @@ class C09(LiftProp):
     rule = ("well-formed files x intervals x split points on block boundaries, inside gaps, ±1 and uniform; the judge cuts "
             "the whole answer at the split point and compares multisets with the two part answers (empty pairs dropped), and "
             "checks that no pair leaves the interval; non-trivial = the whole answer has a pair that the split point cuts "
-            "properly; distinct by (file, interval, split)")
+            "properly; distinct by (file, interval, split); additionally (C09_restrict) a nested sub-interval [p1,p2) with both "
+            "ends chosen like split points: its answer must equal the whole answer cut at p1 and p2 and kept to the middle")
 
     def cases(self, rng, tier):
         for case in LiftProp.cases(self, rng, tier):
@@ -533,7 +534,9 @@ class C09(LiftProp):
                 pts = [p for p in ch.boundaries(chains, iv[0]) if lo <= p <= hi] if iv[0] != "nochr" else []
                 cand = [lo, hi, (lo + hi) // 2] + pts + [p + d for p in pts for d in (-1, 1) if lo <= p + d <= hi]
                 p = rng.choice(cand) if rng.random() < 0.8 else rng.randint(lo, hi)
-                trip.append([list(iv), p])
+                q1 = rng.choice(cand) if rng.random() < 0.8 else rng.randint(lo, hi)
+                q2 = rng.choice(cand) if rng.random() < 0.8 else rng.randint(lo, hi)
+                trip.append([list(iv), p, min(q1, q2), max(q1, q2)])
             case["splits"] = trip
             del case["ivs"]
             case["kind"] = "split"
@@ -543,14 +546,36 @@ class C09(LiftProp):
         ev = Eval()
         self.tag_file(ev, case)
         ivs = []
-        for iv, p in case["splits"]:
+        for sp in case["splits"]:
+            iv, p = sp[0], sp[1]
             ivs += [iv, [iv[0], iv[1], iv[2], p], [iv[0], iv[1], p, iv[3]]]
+        nested = [(k, sp[2], sp[3]) for k, sp in enumerate(case["splits"]) if len(sp) >= 4]
+        for k, p1, p2 in nested:
+            iv = case["splits"][k][0]
+            ivs.append([iv[0], iv[1], p1, p2])
         i, m = self.ask_lift(ctx, ev, case, ivs)
         b, answers = parse_liftover_reply(i)
         if not b.startswith("ok"):
             ev.tags.append("build:" + b.split(" ")[0])
             return ev
-        for k, (iv, p) in enumerate(case["splits"]):
+        for j, (k, p1, p2) in enumerate(nested):
+            iv = case["splits"][k][0]
+            t0, whole = answers[3 * k]
+            t3, sub = answers[3 * len(case["splits"]) + j]
+            if "panic" in (t0, t3):
+                ev.judge = "panic on %s sub-interval %d-%d" % (iv, p1, p2)
+                break
+            mid = [r for pr in whole for q in cut_pair(pr, p1) for r in cut_pair(q, p2)]
+            mid = [q for q in mid if q[3] > q[2] and p1 <= q[2] and q[3] <= p2]
+            got = [q for q in sub if q[3] > q[2]]
+            if ms(mid) != ms(got):
+                ev.judge = "interval %s, sub-interval %d-%d: whole kept to it = %s, its own answer = %s" % (iv, p1, p2, ms(mid), ms(got))
+                break
+            ev.tags.append("nested:" + ("empty" if not got else "cut" if ms(got) != ms([q for q in whole if q[3] > q[2]]) else "all"))
+        for k, sp in enumerate(case["splits"]):
+            if ev.judge:
+                break
+            iv, p = sp[0], sp[1]
             (t0, whole), (t1, a), (t2, bb) = answers[3 * k:3 * k + 3]
             if "panic" in (t0, t1, t2):
                 ev.judge = "panic on %s split %d" % (iv, p)
@@ -581,7 +606,15 @@ class C09(LiftProp):
                 yield c
 
     def neighbours(self, case, rng):
-        for iv, p in case["splits"]:
+        for sp in case["splits"]:
+            iv, p = sp[0], sp[1]
+            if len(sp) >= 4:
+                for d1 in (-1, 0, 1):
+                    for d2 in (-1, 0, 1):
+                        if iv[2] <= sp[2] + d1 <= sp[3] + d2 <= iv[3]:
+                            c = copy.deepcopy(case)
+                            c["splits"] = [[iv, p, sp[2] + d1, sp[3] + d2]]
+                            yield c
             for d in (-2, -1, 1, 2):
                 if iv[2] <= p + d <= iv[3]:
                     c = copy.deepcopy(case)
